@@ -48,15 +48,13 @@ theorem source_makeDeadline :
        "fast.current.write(durationToTicks(time.Since(fast.start)))",
        "}",
        "end = fast.current.read() + deadlineTicks(d)",
-       "fast.mu.Unlock()",
        "extendClock(end)",
+       "fast.mu.Unlock()",
        "}",
        "return end",
        "}"] ∧
     Generated.Clock.extendClockSrc =
       ["{",
-       "fast.mu.Lock()",
-       "defer fast.mu.Unlock()",
        "if fast.start.IsZero() {",
        "fast.start = time.Now()",
        "}",
